@@ -14,10 +14,10 @@ from .values import (Unsupported, PyRaise, Cx, VTuple, VList, VDict, VMap, VOpt,
 
 PI = z3.Real("pi")
 PI_BOUNDS = z3.And(PI > z3.RealVal("3.14159265358"), PI < z3.RealVal("3.14159265359"))
-SQRT_F = z3.Function("sqrt", z3.RealSort(), z3.RealSort())
-CBRT_F = z3.Function("cbrt", z3.RealSort(), z3.RealSort())
-EXP_F = z3.Function("exp", z3.RealSort(), z3.RealSort())
-LOG_F = z3.Function("log", z3.RealSort(), z3.RealSort())
+SQRT_F = z3.Function("sqrt_fn", z3.RealSort(), z3.RealSort())
+CBRT_F = z3.Function("cbrt_fn", z3.RealSort(), z3.RealSort())
+EXP_F = z3.Function("exp_fn", z3.RealSort(), z3.RealSort())
+LOG_F = z3.Function("log_fn", z3.RealSort(), z3.RealSort())
 COSD_F = z3.Function("cos_radians", z3.RealSort(), z3.RealSort())
 FLOAT_OF_STR = z3.Function("float_of_str", z3.StringSort(), z3.RealSort())
 
